@@ -109,6 +109,19 @@ impl Cleaner {
     }
 }
 
+#[cfg(rust_cc_verif)]
+impl Cleaner {
+    /// Address of the `CleanerMap` allocation, if it was created.
+    pub(crate) fn verif_map_addr(&self) -> Option<*const ()> {
+        // SAFETY: no reference to the Option already exists
+        unsafe { (*self.cleaner_map.get()).as_ref().map(crate::verif::box_addr) }
+    }
+
+    pub(crate) fn verif_map_layout() -> (usize, usize) {
+        crate::verif::ccbox_layout::<CleanerMap>()
+    }
+}
+
 unsafe impl Trace for Cleaner {
     #[inline(always)]
     fn trace(&self, _: &mut Context<'_>) {
